@@ -195,7 +195,7 @@ func checkNonceRegister(c *core.Ctx, rule string) {
 		case "(*coreV2/state/accounts.Model).setNonce":
 			st := w.Instr.(*ssa.Store)
 			p, ok := core.Unwrap(st.Val).(*ssa.Parameter)
-			c.Check(ok && p.Name() == "nonce", rule, "Model.Nonce/writer/"+fname, w.Pos(), "setNonce stores its parameter", "setNonce stores something other than its parameter: "+core.Path(st.Val))
+			c.Check(ok && core.ParamName(p) == "nonce", rule, "Model.Nonce/writer/"+fname, w.Pos(), "setNonce stores its parameter", "setNonce stores something other than its parameter: "+core.Path(st.Val))
 		case "(*coreV2/state/accounts.Accounts).getOrNew":
 			st := w.Instr.(*ssa.Store)
 			k, ok := core.ConstInt(st.Val)
